@@ -64,7 +64,7 @@ func (b *Backend) traceState(m *Model) {
 		var parts []string
 		for i := 0; i < ids.Len(); i++ {
 			for c := 0; c < comps.N; c++ {
-				if b.IDs[c] == ids.Get(i) {
+				if b.Reg[c] && b.IDs[c] == ids.Get(i) {
 					parts = append(parts, fmt.Sprintf("%s=%d", comps.All[c].Name, comps.GetV(c, b.U.Get(h, b.IDs[c]))))
 				}
 			}
